@@ -15,6 +15,33 @@ CLAIMED = {
         ref="DESIGN.md#c03"),
 }
 
+CLAIMED.update({
+    "C04": dict(
+        text="The real transform_1d_grid + OneDGrid.__init__ are executed on a symbolic grid (1-3/4 symbolic nodes, weights, sub-domain) with an ABSTRACT strictly monotone transform "
+             "(uninterpreted T, T'; both directions; finite / trimmed / infinite image of the singular end): z3 decides nodes = T(x), weights = w|T'|, non-negativity, the quadrature-sum identity "
+             "for an uninterpreted integrand, ordered image domain containing every node, no exception on any path. A contract job per concrete class (all 12, exponents <= 4/6) discharges on the real "
+             "code that deriv is the derivative, keeps one strict sign, and that the finite end points map to the codomain ends (incl. the Jacobian at a node on x=-1).",
+        note="assume/guarantee split: wiring claims hold for every transform satisfying the monotone contract; floats as reals; images assumed below the 1e16 stand-in for infinity; Gauss-Legendre transported exactness outside",
+        ref="DESIGN.md#c04"),
+    "C12": dict(
+        text="CrossHair executes the real _get_degree_and_size and the loader's validation/file-name rule (recompiled from current source with only the f-string error messages stubbed) on a symbolic int; "
+             "per chunk of the request range it confirms over all paths that the result equals the smallest supported (degree,size) pair not below the request and that the file the loader opens is shipped; "
+             "unbounded rejection contracts for requests below 0 / above the maximum. Complete over all integers (no bound) for the scalar rule.",
+        note="CrossHair's int/dict/bisect models trusted; tables' mutual-inverse/ascending/file-existence are ground facts; the vectorised converter is a ground enumeration reported separately (not a solver obligation)",
+        ref="DESIGN.md#c12", technique="CrossHair symbolic execution of the real lookup code with z3 per path (confirmed over all paths), chunked over the request range"),
+    "C13": dict(
+        text="Real cubic.py code on symbolic data: index maps with symbolic UNBOUNDED integer shapes (round trip, range; converse direction for every concrete shape <= 4/7 per axis), lexicographic layout of "
+             "UniformGrid (symbolic origin/skewed axes) and Tensor1DGrids (symbolic nodes, tensor weights, separable integrals), all 5 weight schemes in 2-D/3-D against the sum bound, "
+             "from_molecule(rotate=False) containment with symbolic charges/coordinates, closest_point optimality for symbolic steps/origin/query.",
+        note="cube-file I/O, spline interpolation (SciPy/sympy) and rotate=True (LAPACK) are outside; known findings: Fourier2 (2-D IndexError, 3-D sum 0), from_molecule containment for unequal charges",
+        ref="DESIGN.md#c13"),
+    "C18": dict(
+        text="MultiDomainGrid.integrate (vectorised, point-by-point for EVERY chunk size 1..size+1, cached-array integrand), size, points and weights generators are executed on grids with symbolic points/weights "
+             "and an uninterpreted integrand; every result is shown equal to the independently built nested product sum; separable integrands factorise.",
+        note="bounded: <= 3/4 domains, <= 3/4 nodes each, 1-D/3-D mixed, repeated-grid mode; identities close by the DAG's canonical form / normalisation, z3 is used for reachability twins and counterexamples",
+        ref="DESIGN.md#c18"),
+})
+
 NOT_APPLICABLE = {
     "C02": "no symbolic input: validating 450 shipped data files against harmonics up to degree 325 is floating-point enumeration of concrete runs, outside solver-based checking and outside solver reach (the table/lookup half is decided in C12)",
 }
